@@ -33,6 +33,33 @@ Proof.
   - right. apply H. intro Eq. subst. auto.
 Qed.
 
+(* ------------------------------------------------------------------ spelling independence *)
+Lemma key_spelling_invariant : forall p, strip_dot p = p ->
+  norm_key (46 :: 47 :: p) = norm_key p /\ norm_key (46 :: 92 :: p) = norm_key p.
+Proof.
+  intros p H. unfold norm_key. cbn [strip_dot N.eqb Pos.eqb andb orb]. rewrite H. split; reflexivity.
+Qed.
+
+(* ------------------------------------------------------------------ keys written by an update are stable *)
+Lemma update_keys_stable : forall R m ex,
+  stable_results R -> ostable ex -> stable_bl (update_baseline_from_results R m ex).
+Proof.
+  intros R m ex HR HE k HK. apply In_keys_lookup in HK. destruct HK as [e HK].
+  apply update_origin in HK. destruct HK as [HK|HK].
+  - destruct ex as [b|]; cbn [existing_or_empty] in HK; [|cbn in HK; congruence].
+    apply HE. destruct (lookup k b) eqn:L; [|congruence]. eapply lookup_In_keys; eauto.
+  - apply in_map_iff in HK. destruct HK as [r [E HI]]. subst k. apply HR.
+    apply filter_In in HI. tauto.
+Qed.
+
+Lemma ostable_view_view : forall ob,
+  (forall k, In k (match ob with Some b => keys b | None => [] end) -> stable_key (norm_key k)) ->
+  ostable (view ob).
+Proof.
+  intros [b|] H; cbn; auto. intros k HK. rewrite keys_rekey in HK.
+  apply in_map_iff in HK. destruct HK as [k0 [E HI]]. subst k. apply H. assumption.
+Qed.
+
 (* ------------------------------------------------------------------ round trip *)
 Definition results_after (ob : option baseline) (rs : list result) : list result :=
   match ob with Some b => apply_baseline_comparison rs b | None => rs end.
@@ -80,6 +107,7 @@ Proof.
 Qed.
 
 Lemma roundtrip : forall (R : list result) (dirs : list key) (disk0 : option baseline) (we : bool) (fl : flags),
+  stable_results R ->
   f_baseline fl = true -> f_update fl = None ->
   let disk1 := o_disk (check_step (update_flags UAll we) R dirs disk0) in
   let out := check_step fl R dirs disk1 in
@@ -93,18 +121,21 @@ Lemma roundtrip : forall (R : list result) (dirs : list key) (disk0 : option bas
     (f_wae fl = true /\ exists r, In r R /\ is_warning r = true))) /\
   (o_exit out = 0 \/ o_exit out = 1).
 Proof.
-  intros R dirs disk0 we fl HB HU. cbv zeta. rewrite update_run_disk.
-  set (B := update_baseline_from_results R UAll disk0) in *.
+  intros R dirs disk0 we fl HSt HB HU. cbv zeta. rewrite update_run_disk.
+  set (B := update_baseline_from_results R UAll (view disk0)) in *.
   set (out := check_step fl R dirs (Some B)).
+  assert (RK : rekey B = B).
+  { apply rekey_stable. intros k HK. apply In_keys_lookup in HK. destruct HK as [e HK].
+    apply all_keys_written in HK. destruct HK as [r [HI [_ K]]]. subst k. apply HSt. assumption. }
   assert (HR : o_results out = map (gf B) R).
-  { subst out. unfold check_step, load_for_run. rewrite HB. reflexivity. }
+  { subst out. unfold check_step, load_for_run. rewrite HB, RK. reflexivity. }
   assert (HRO : handle_baseline_ratchet (f_ratchet_cli fl) (f_ratchet_cfg fl) (map (gf B) R)
                   (evaluated_of (map (gf B) R) dirs) (Some B) = mkRO false (Some B) false []).
   { unfold handle_baseline_ratchet. cbv zeta. destruct (effective_ratchet _ _); auto.
     subst B. rewrite no_stale_after_all. reflexivity. }
   assert (HO : out = mkOutcome (map (gf B) R)
                  (determine_exit_code (map (gf B) R) (f_warn_only fl) (f_wae fl) false) (Some B) []).
-  { subst out. unfold check_step, load_for_run. rewrite HB, HU. cbn [results_after].
+  { subst out. unfold check_step, load_for_run. rewrite HB, HU, RK. cbn [results_after].
     rewrite apply_is_map, HRO. reflexivity. }
   rewrite HO. cbn [o_results o_stale o_disk o_exit].
   split; [|split; [reflexivity|split; [reflexivity|split]]].
@@ -176,17 +207,17 @@ Qed.
 
 Lemma new_never_drops : forall fl R dirs b k e,
   f_update fl = Some UNew ->
-  lookup k b = Some e ->
+  lookup k (rekey b) = Some e ->
   ~ In k (o_stale (check_step fl R dirs (Some b))) ->
   exists b', o_disk (check_step fl R dirs (Some b)) = Some b' /\ lookup k b' = Some e.
 Proof.
   intros fl R dirs b k e HU HL HN. unfold check_step, load_for_run in *. rewrite HU in *.
   destruct (f_baseline fl); cbn [o_disk o_stale] in *.
-  - set (ro := handle_baseline_ratchet _ _ _ _ (Some b)) in *.
+  - set (ro := handle_baseline_ratchet _ _ _ _ (Some (rekey b))) in *.
     destruct (ratchet_keeps_unstale _ _ _ _ _ _ _ HL HN) as [b' [E L]]. fold ro in E.
     rewrite E. eexists. split; [reflexivity|].
     unfold update_baseline_from_results. apply fold_new_keeps. assumption.
-  - rewrite ratchet_no_baseline. cbn [ro_baseline ro_saved]. eexists. split; [reflexivity|].
+  - rewrite ratchet_no_baseline. cbn [ro_baseline ro_saved view]. eexists. split; [reflexivity|].
     unfold update_baseline_from_results. apply fold_new_keeps. assumption.
 Qed.
 
@@ -270,14 +301,14 @@ Lemma modes_preserve_other_kind : forall R dirs b we k e,
   let d2 := o_disk (check_step (update_flags UStructure we) R dirs (Some b)) in
   (is_structure_entry e = true ->
    (olookup k d1 = Some e <->
-    lookup k b = Some e /\
+    lookup k (rekey b) = Some e /\
     forall r, In r R -> violating r = true -> is_structure r = false -> key_of r <> k)) /\
   (is_content_entry e = true ->
    (olookup k d2 = Some e <->
-    lookup k b = Some e /\
+    lookup k (rekey b) = Some e /\
     forall r, In r R -> violating r = true -> baselinable r <> None -> key_of r <> k)).
 Proof.
-  intros R dirs b we k e d1 d2. subst d1 d2. rewrite !update_run_disk. cbn [olookup]. split; intro H.
+  intros R dirs b we k e d1 d2. subst d1 d2. rewrite !update_run_disk. cbn [olookup view]. split; intro H.
   - apply content_mode_preserves; assumption.
   - apply structure_mode_preserves; assumption.
 Qed.
@@ -313,12 +344,14 @@ Proof.
 Qed.
 
 Lemma update_idempotent : forall m R dirs disk0 we we',
+  stable_results R -> ostable (view disk0) ->
   let d1 := o_disk (check_step (update_flags m we) R dirs disk0) in
   let d2 := o_disk (check_step (update_flags m we') R dirs d1) in
   forall k, olookup k d2 = olookup k d1.
 Proof.
-  intros m R dirs disk0 we we' d1 d2 k. subst d1 d2. rewrite !update_run_disk. cbn [olookup].
-  apply update_twice.
+  intros m R dirs disk0 we we' HR HD d1 d2 k. subst d1 d2. rewrite !update_run_disk.
+  rewrite (view_stable (Some _)) by (cbn; apply update_keys_stable; assumption).
+  cbn [olookup]. apply update_twice.
 Qed.
 
 (* ------------------------------------------------------------------ histories *)
@@ -340,22 +373,35 @@ Proof.
   destruct (mem_key k (s :: ss)); try discriminate. apply contains_lookup. eauto.
 Qed.
 
-(* where the keys of the baseline file after a run come from *)
+(* where the keys of the baseline file after a run come from: the file before, possibly
+   re-keyed by a load, or a violating result of an updating run *)
+Definition from_disk (k : key) (disk : option baseline) : Prop :=
+  ocontains k disk = true \/ exists k0, ocontains k0 disk = true /\ k = norm_key k0.
+
+Lemma view_from_disk : forall k disk, ocontains k (view disk) = true -> from_disk k disk.
+Proof.
+  intros k [b|]; cbn; [|discriminate]. intro H. right.
+  apply contains_lookup in H. destruct H as [e H]. apply lookup_rekey_inv in H.
+  destruct H as [k0 [HI E]]. exists k0. split; auto.
+  apply In_keys_lookup in HI. apply contains_lookup. assumption.
+Qed.
+
 Lemma step_disk_keys : forall fl R dirs disk k,
   ocontains k (o_disk (check_step fl R dirs disk)) = true ->
-  ocontains k disk = true \/
+  from_disk k disk \/
   (f_update fl <> None /\ In k (map key_of (filter violating R))).
 Proof.
   intros fl R dirs disk k. unfold check_step.
-  destruct (load_for_run fl disk) as [loaded|] eqn:HL; cbn [o_disk]; auto.
-  assert (LD : forall k', ocontains k' loaded = true -> ocontains k' disk = true).
+  destruct (load_for_run fl disk) as [loaded|] eqn:HL; cbn [o_disk]; [|left; left; assumption].
+  assert (LD : forall k', ocontains k' loaded = true -> from_disk k' disk).
   { intros k'. unfold load_for_run in HL. destruct (f_baseline fl).
-    - destruct disk; [inversion HL; auto|]. destruct (f_update fl); inversion HL; auto.
+    - destruct disk as [b|]; [inversion HL; apply (view_from_disk k' (Some b))|].
+      destruct (f_update fl); inversion HL; cbn; discriminate.
     - inversion HL. cbn. discriminate. }
   set (rs1 := match loaded with Some b => apply_baseline_comparison R b | None => R end).
   set (ro := handle_baseline_ratchet _ _ rs1 _ loaded).
-  assert (D1 : forall k', ocontains k' (if ro_saved ro then ro_baseline ro else disk) = true -> ocontains k' disk = true).
-  { intros k' H. destruct (ro_saved ro); auto. apply LD. subst ro. eapply ratchet_sub; eauto. }
+  assert (D1 : forall k', ocontains k' (if ro_saved ro then ro_baseline ro else disk) = true -> from_disk k' disk).
+  { intros k' H. destruct (ro_saved ro); [|left; assumption]. apply LD. subst ro. eapply ratchet_sub; eauto. }
   assert (VK : map key_of (filter violating rs1) = map key_of (filter violating R)).
   { subst rs1. destruct loaded; auto. rewrite apply_is_map. apply violating_keys_apply. }
   destruct (f_update fl) as [m|] eqn:HU.
@@ -364,9 +410,9 @@ Proof.
     + left. destruct (ro_baseline ro) as [b'|] eqn:RB; cbn [existing_or_empty] in H.
       * apply LD. subst ro. eapply ratchet_sub. rewrite RB. cbn. apply contains_lookup.
         destruct (lookup k b'); [eauto|congruence].
-      * apply D1. destruct (ro_saved ro); cbn in *; [congruence|].
-        destruct disk as [b'|]; cbn in *; [|congruence].
-        apply contains_lookup. destruct (lookup k b'); [eauto|congruence].
+      * destruct (ro_saved ro); cbn in *; [congruence|].
+        apply view_from_disk. destruct disk as [b'|]; cbn in *; [|congruence].
+        apply contains_lookup. destruct (lookup k (rekey b')); [eauto|congruence].
     + right. split; [discriminate|]. rewrite <- VK. assumption.
   - intro H. left. apply D1. assumption.
 Qed.
@@ -399,21 +445,29 @@ Section HistoryInv.
 
   Lemma step_inv : forall st o k,
     ocontains k (h_disk _ (step project eval dirs_of st o)) = true ->
-    ocontains k (h_disk _ st) = true \/ In k (op_written st o).
+    from_disk k (h_disk _ st) \/ In k (op_written st o).
   Proof.
-    intros st o k. destruct o as [p | m we | fl s]; cbn [step h_disk op_written]; auto.
+    intros st o k. destruct o as [p | m we | fl s]; cbn [step h_disk op_written].
+    - intro H. left. left. assumption.
     - unfold run. intro H. apply step_disk_keys in H. destruct H as [H|[_ H]]; auto.
     - unfold run. intro H. apply step_disk_keys in H. destruct H as [H|[HU H]]; auto.
       right. destruct (f_update fl); [assumption|congruence].
   Qed.
 
-  Lemma history_inv : forall ops st k,
-    ocontains k (h_disk _ (run_history project eval dirs_of ops st)) = true ->
-    ocontains k (h_disk _ st) = true \/ In k (written_keys ops st).
+  (* any property of keys that survives normalisation, holds of the keys of the start file and of
+     the keys of the violating results at every update, holds of every key of the final file *)
+  Lemma history_inv : forall (P : key -> Prop), (forall k, P k -> P (norm_key k)) ->
+    forall ops st,
+    (forall k, ocontains k (h_disk _ st) = true -> P k) ->
+    (forall k, In k (written_keys ops st) -> P k) ->
+    forall k, ocontains k (h_disk _ (run_history project eval dirs_of ops st)) = true -> P k.
   Proof.
-    unfold run_history. induction ops as [|o ops IH]; intros st k H; cbn [fold_left written_keys] in *; auto.
-    apply IH in H. destruct H as [H|H].
-    - apply step_inv in H. destruct H as [H|H]; auto. right. apply in_or_app. auto.
-    - right. apply in_or_app. auto.
+    intros P HP. unfold run_history. induction ops as [|o ops IH]; intros st H0 HW k H; cbn [fold_left written_keys] in *; auto.
+    apply (IH (step project eval dirs_of st o)); auto.
+    - intros k' H'. apply step_inv in H'. destruct H' as [[H'|[k0 [H' E]]]|H'].
+      + auto.
+      + subst k'. auto.
+      + apply HW. apply in_or_app. auto.
+    - intros k' H'. apply HW. apply in_or_app. auto.
   Qed.
 End HistoryInv.
